@@ -287,20 +287,22 @@ impl Monitor for QuoteMon {
         let sp = pre.tick_spacing as i32;
         let tia = 88 * sp;
         let base = array_start(pre.tick_current_index, pre.tick_spacing);
+        // the arrays of the path, found the way the program finds them: starting at the array of the current tick
+        // (the next one for a b-to-a swap from the last tick of an array), up to three consecutive arrays whose
+        // addresses are among the supplied accounts (static slots and supplemental ones alike)
+        let supplied: Vec<Pubkey> = obs.ix.metas.iter().filter(|m| m.name.starts_with("tick_array_") || m.name.starts_with("remaining_")).map(|m| m.key).collect();
+        let shifted = !c.a_to_b && pre.tick_current_index + sp >= base + tia;
+        let offsets: [i64; 3] = if c.a_to_b { [0, -1, -2] } else if shifted { [1, 2, 3] } else { [0, 1, 2] };
         let mut starts: Vec<i32> = vec![];
-        for m in &obs.ix.metas {
-            if m.name.starts_with("tick_array_") {
-                // recover the start index of the supplied address among the candidates around the current tick
-                for o in -4..=4 {
-                    let s = base as i64 + o as i64 * tia as i64;
-                    if s < MIN_TICK_INDEX as i64 - tia as i64 || s > MAX_TICK_INDEX as i64 {
-                        continue;
-                    }
-                    if vcheck::ix::build::pda_tick_array(c.pool, s as i32).0 == m.key && !starts.contains(&(s as i32)) {
-                        starts.push(s as i32);
-                    }
-                }
+        for o in offsets {
+            let s = base as i64 + o * tia as i64;
+            if s + tia as i64 <= MIN_TICK_INDEX as i64 || s > MAX_TICK_INDEX as i64 {
+                continue;
             }
+            if !supplied.contains(&vcheck::ix::build::pda_tick_array(c.pool, s as i32).0) {
+                break;
+            }
+            starts.push(s as i32);
         }
         if starts.is_empty() {
             return;
